@@ -31,6 +31,9 @@ KNOWN = [
     ("C01", "semver-emits-numeric-identifier-above-u64",
      "a run of 20+ digits in free text (e.g. branch '1010...10/x' or a custom value) is emitted as a numeric pre-release identifier above u64: "
      "valid SemVer 2.0.0 by grammar, but `zerv check --format semver` (and every u64-based SemVer parser) rejects it"),
+    ("C13", "abort-stack-overflow-in-template-parser",
+     "an --output-template of tens of thousands of nested parentheses or chained operators (e.g. '{{ ' + '('*20000 + '1' + ')'*20000 + ' }}', "
+     "'{{ 1' + ' + 1'*30000 + ' }}') aborts zerv with a stack overflow (SIGABRT) inside the Tera template parser, which has no depth limit"),
     ("C04", "flow-hash-len10-overflow",
      "zerv flow --hash-branch-len 10 fails for every branch whose 10-digit hash exceeds 2^32-1 (e.g. branches a, d, dev, master): "
      "'Failed to parse NNNNNNNNNN: number too large to fit in target type' - the documented length 10 does not work for ~57% of branch names"),
